@@ -48,8 +48,10 @@ class World:
     def h_allocate(self, I, args, kwargs):
         size = args[0]
         buf = kwargs.get("buffer", args[2] if len(args) > 2 else None)
-        I.effects.append(Effect("alloc", size=size))
-        return (buf if isinstance(buf, Obj) else self.buffer, self.alloc_pos)
+        n = sum(1 for e in I.effects if e.kind == "alloc")
+        pos = self.alloc_pos if n == 0 else Sym(Poly.atom(f"off{n}"))
+        I.effects.append(Effect("alloc", size=size, pos=pos))
+        return (buf if isinstance(buf, Obj) else self.buffer, pos)
 
     def _size(self, I, scalar):
         return I.getattr(scalar, "_size")
